@@ -346,3 +346,285 @@ def hexs(b):
 
 def unhex(s):
     return bytes.fromhex(s)
+
+
+# ---------------------------------------------------------------- YAML corpus --
+
+import ygen
+
+YSTR = ["a", "a b", "", " a", "a ", "a: b", "- a", "#a", "a #b", "true", "null", "~", "12", "0x1F", "0o7", "1e3", "yes", "no",
+        "é", "😀", "a\nb", "a\n", "a\n\n", "a\n b", " a\nb", "a\n\nb", "\ta", "x\x01y", "x\x85y", "x\u2028y", "'", "\"", "\\",
+        "a'b\"c", "C:\\x", "*a", "&a", "!a", "[a]", "{a}", "a,b", "a, b", "a]", "|", ">", "%a", "@a", "`a", "---", "...", "-", "?",
+        ":", "a:", "? a", "1.5", ".5", "+1", "-0", "1_000", "0b1", "TRUE", "Null", ".inf", ".NaN", "2001-01-01", "<<", "=",
+        "x" * 90]
+YSTR_QUICK = ["a", "a b", "", " a", "a: b", "- a", "#a", "true", "~", "12", "0x1F", "é", "😀", "a\nb", "a\n", "\ta", "x\x01y", "x\x85y",
+              "'", "\"", "*a", "[a]", "a,b", "|", "%a", "---"]
+YKEYS = ["k", "a b", "", "true", "null", "~", "12", "0x1F", "a: b", "é", "- a", "#a", "a #b", "'", "k\"", "*a", "&a", "!a", "? a", "a\nb",
+         " a", "a ", "[a]", "{a}", "a,b", "|", ">", "%a", "@a", "`a", "-", "?", "a:", "---", "<<", "1.5", "a\tb", "\\"]
+YKEYS_QUICK = ["k", "a b", "", "true", "12", "a: b", "é", "- a", "#a", "'", "*a", "a\nb", " a", "a ", "[a]", "a,b", "|", "%a", "@a", "-", "<<"]
+
+
+def yleaves(quick, strs=None):
+    ls = [("str", s) for s in (strs if strs is not None else YSTR_QUICK if quick else YSTR)]
+    ls += [("int", 0), ("int", 7), ("int", -3), ("int", 123456789), ("bool", True), ("bool", False), ("null",)]
+    return ls
+
+
+def _lines(ls, brk="\n"):
+    return (brk.join(ls) + brk).encode("utf8")
+
+
+def ydocs_single(quick, strs=None):
+    """presentations of a single leaf: as root, under key k, as sequence item, in flow collections.
+    -> (text, value, tag, canonical?)  canonical = the first (double-quoted / decimal) presentation of that shape"""
+    out = []
+    for leaf in yleaves(quick, strs):
+        py = ygen.to_py(leaf)
+        vforms = ygen.inline_scalar_forms(leaf, "blockval")
+        fforms = ygen.inline_scalar_forms(leaf, "flow")
+        blocks = ygen.block_scalar_forms(leaf[1]) if leaf[0] == "str" else []
+        if quick:
+            blocks = blocks[:2]
+        for i, f in enumerate(fforms if not quick else [fforms[0], fforms[-1]]):
+            out.append((_lines([f]), py, "root-scalar", i == 0))
+        for hdr, lines, chomp in blocks:
+            # content indented by 2: with unindented content (`--- |-\na`) the loader reports two documents — a loader matter (C14), kept out of here
+            out.append((_lines(["--- " + hdr.replace("%IND%", "2")] + [("  " + l if l else "") for l in lines]), py, "root-block-scalar", False))
+        # under a key: every value form with a plain key; every key form with the first value form; one comment; explicit key
+        for i, f in enumerate(vforms):
+            out.append((_lines(["k:" + (" " + f if f else "")]), {"k": py}, "map1", i == 0))
+        for hdr, lines, chomp in blocks:
+            out.append((_lines(["k: " + hdr.replace("%IND%", "2")] + [("  " + l if l else "") for l in lines]), {"k": py}, "map1", False))
+        for kf in ygen.key_forms("k")[:2]:
+            out.append((_lines([kf + ": " + vforms[0]]), {"k": py}, "map1", False))
+        out.append((_lines(["? k", ": " + fforms[0]]), {"k": py}, "map1", False))
+        out.append((_lines(["k: " + vforms[-1 if vforms[-1] else 0] + " # c"]), {"k": py}, "map1", False))
+        # sequence item
+        for i, f in enumerate(vforms if not quick else [vforms[0], vforms[-1]]):
+            out.append((_lines(["-" + (" " + f if f else "")]), [py], "seq1", i == 0))
+        for hdr, lines, chomp in blocks:
+            out.append((_lines(["- " + hdr.replace("%IND%", "2")] + [("  " + l if l else "") for l in lines]), [py], "seq1", False))
+        # flow collections
+        for i, f in enumerate(fforms if not quick else [fforms[0], fforms[-1]]):
+            out.append((_lines(["{k: [" + f + "]}"]), {"k": [py]}, "flow1", i == 0))
+            out.append((_lines(["[{k: " + f + "}]"]), [{"k": py}], "flow1", i == 0))
+    return out
+
+
+YSMALL = [("str", "a"), ("str", "a: b"), ("int", 7), ("null",), ("str", "x\ny\n"), ("bool", True)]
+
+
+def ytrees2(quick):
+    small = [YSMALL[0], YSMALL[2], YSMALL[3]] if quick else YSMALL
+    ts = []
+    for a in small:
+        for b in small:
+            ts += [("map", [("k", a), ("j", b)]), ("seq", [a, b]), ("map", [("k", ("seq", [a, b]))]),
+                   ("map", [("k", ("map", [("j", a), ("i", b)]))]), ("seq", [("map", [("k", a), ("j", b)]), a]),
+                   ("seq", [("seq", [a]), b]), ("map", [("k", ("map", [("j", a)])), ("a", b)]),
+                   ("map", [("a", a), ("k", ("seq", [("map", [("j", b)])]))])]
+    ts += [("map", []), ("seq", []), ("map", [("a", ("map", [])), ("k", ("seq", []))]), ("seq", [("seq", []), ("map", [])])]
+    return ts
+
+
+def _last(it):
+    x = None
+    for x in it:
+        pass
+    return x
+
+
+def ydocs_trees(quick):
+    """two-leaf trees: first (double-quoted) and last (plainest) block presentation, first and last flow form;
+    thorough adds indentation 4, CRLF, document markers, a leading comment"""
+    out = []
+    for t in ytrees2(quick):
+        py = ygen.to_py(t)
+        first = next(ygen.block(t, 0))
+        variants = [_lines(first), _lines([ygen.flow(t)[0]])]
+        if not quick:
+            variants += [_lines([ygen.flow(t)[-1]]), _lines(_last(ygen.block(t, 0))), _lines(next(ygen.block(t, 0, 4))),
+                         _lines(["---"] + first + ["..."]), _lines(first, "\r\n"), _lines(["# lead", ""] + first)]
+        seen = set()
+        for i, d in enumerate(variants):
+            if d not in seen:
+                seen.add(d); out.append((d, py, "tree2", i == 0))
+    return out
+
+
+def ydocs_keys(quick, keys=None):
+    out = []
+    for k in (keys if keys is not None else YKEYS_QUICK if quick else YKEYS):
+        t = ("map", [(k, ("int", 1)), ("z", ("str", "v"))])
+        py = ygen.to_py(t)
+        seen = set()
+        for i, kf in enumerate(ygen.key_forms(k)):
+            for j, d in enumerate((_lines([kf + ": 1", "z: v"]), _lines(["{" + kf + ": 1, z: v}"]), _lines(["? " + kf, ": 1", "z: v"]))):
+                if quick and (i, j) not in ((0, 0), (0, 1)) and not (j == 0 and i == len(ygen.key_forms(k)) - 1):
+                    continue
+                if d not in seen:
+                    seen.add(d); out.append((d, py, "keys", i == 0 and j == 0))
+    return out
+
+
+YHAND = [
+    (b"a: &x 1\nb: *x\n", "anchor"),
+    (b"a: &x\n  k: 1\n  j: [1, 2]\nb: *x\nc:\n  - *x\n", "anchor"),
+    (b"base: &b {p: 1, q: 2}\nd:\n  <<: *b\n  r: 3\n", "merge"),
+    (b"a: &x hello\nb: *x\nc: [*x, *x]\n", "anchor"),
+    (b"- &a [1, 2]\n- *a\n- k: *a\n", "anchor"),
+    (b"k: &x 'q'\n# comment\nj: *x # t\n", "anchor"),
+    (b"a: &x [1]\nb:\n  c: *x\n  d: &y {e: *x}\n  f: *y\n", "anchor"),
+    (b"k: &x\n  j: 1\na: *x\n", "anchor"),
+    (b"- &x a\n- *x\n", "anchor"),
+    (b"k: &x {j: 1}\na: {<<: *x, i: 2}\n", "merge"),
+    (b"a: |\n  l1\n  l2\nb: >-\n  f1\n  f2\n# c\nc: 'x: y'\n", "block-scalar"),
+    (b"k: |+\n  a\n\nj: |-\n  a\na: >\n  x\n  y\n\n  z\n", "block-scalar"),
+    (b"- |\n  a\n  b\n- >-\n  c\n  d\n", "block-scalar"),
+    (b"k:\n  j: |2\n     x\n    y\n", "block-scalar"),
+    (b"---\na: 1\n---\nb: &z {k: v}\nc: *z\n", "multi-doc"),
+    (b"a: 1\n---\nk: 2\n...\n---\n- 3\n", "multi-doc"),
+    (b"--- 1\n--- a\n", "multi-doc"),
+    (b"# head\nk: 1 # one\n# mid\na: # akey\n  - x # ix\n  # inner\n  - y\n# tail\n", "comments"),
+    (b"k:   1\na:    [ 1 ,  2 ]\nj:  {  x :  1  }\n", "spacing"),
+    (b"k:\n- 1\n- 2\na:\n    j: 1\n    i:\n        - x\n", "indentation"),
+    (b"- - 1\n  - 2\n- - k: 1\n    j: 2\n", "compact-nesting"),
+    (b"? k\n: 1\n? [a, b]\n: 2\n", "explicit-key"),
+    (b"k: !!str 12\na: !!int '7'\nj: !custom x\n", "tags"),
+    (b"k: \"a\\\n  b\"\na: 'x\n  y'\nj: p\n  q\n", "multi-line-flow-scalar"),
+    (b"k: [1, [2, {j: 3}], {a: [4]}]\na: {j: {i: [5, 6]}}\n", "nested-flow"),
+    (b"{k: 1,\n a: [1,\n  2],\n j: x}\n", "multi-line-flow"),
+    (b"k: 0x1F\na: 0o17\nj: 1e3\ni: .5\nm: -0\nn: +1\no: 1_000\n", "numbers"),
+    (b"k: 1.0\na: 1.50\nj: 1E3\ni: -0.0\nm: 100000000000000000000\nn: .inf\n", "numbers"),
+    (b"k: ~\na: Null\nj:\ni: NULL\n- x\n", "invalid-mix"),
+    (b"k: True\na: FALSE\nj: yes\ni: No\n", "bools"),
+    (b"k: 'a\tb'\na: x\ty\nj: |\n  p\tq\ni: \"c\\td\"\n", "interior-tab"),
+    (b"- 'it''s'\n- \"q\\\"d\"\n- a\\b\n- 'a\\b'\n", "quote-escapes"),
+    (b"k: 1\r\na:\r\n  - x\r\n", "crlf"),
+    (b"\xef\xbb\xbfk: 1\n", "bom"),
+    (b"k: 1", "no-final-newline"),
+    (b"", "empty"),
+    (b"# only a comment\n", "empty"),
+    (b"---\n", "empty"),
+]
+YDUP = [(b"a: 1\na: 2\n", "dup-keys"), (b"k: {j: 1, j: 2}\na: 3\nk: 4\n", "dup-keys"), (b"- {a: 1, a: 2}\n- k: 1\n  k: [2]\n", "dup-keys"),
+        (b"{\"a\": 1, a: 2, 'a': 3}\n", "dup-keys"), (b"k: 1\nj: 2\nk:\n  j: 3\n", "dup-keys")]
+
+
+def ycorpus(tier, parts=("single", "trees", "keys", "hand"), strs=None, keys=None):
+    """-> list of (text bytes, expected py value or None, tag, canonical presentation?)"""
+    quick = tier == "quick"
+    out = []
+    if "single" in parts:
+        out += ydocs_single(quick, strs)
+    if "trees" in parts:
+        out += ydocs_trees(quick)
+    if "keys" in parts:
+        out += ydocs_keys(quick, keys)
+    if "hand" in parts:
+        out += [(d, None, t, True) for d, t in YHAND]
+    seen = set(); res = []
+    for d in out:
+        if d[0] not in seen:
+            seen.add(d[0]); res.append(d)
+    return res
+
+
+# ------------------------------------------------ memoising runner / bulk judging --
+
+class Need(Exception):
+    pass
+
+
+class MemoRunner:
+    """runner(argv, stdin) -> result from the batch results gathered so far; unknown jobs are queued and Need is raised,
+    so a judge can be written once against `runner` and used both in bulk (batch) and in replay (real spawns)."""
+
+    def __init__(self):
+        self.res = {}
+        self.missing = {}
+        self.njobs = 0
+
+    def fill(self, jobs, results):
+        for (argv, stdin), r in zip(jobs, results):
+            self.res[(tuple(argv), stdin)] = r
+
+    def many(self, jobs):
+        out = []; miss = False
+        for argv, stdin in jobs:
+            k = (tuple(argv), stdin)
+            r = self.res.get(k)
+            if r is None:
+                self.missing[k] = None; miss = True
+            out.append(r)
+        if miss:
+            raise Need()
+        return out
+
+    def __call__(self, argv, stdin):
+        return self.many([(argv, stdin)])[0]
+
+
+class SpawnRunner:
+    """The same interface backed by real process spawns (confirmation and replay)."""
+
+    def __init__(self):
+        self.res = {}
+
+    def many(self, jobs):
+        out = []
+        for argv, stdin in jobs:
+            k = (tuple(argv), stdin)
+            if k not in self.res:
+                self.res[k] = batch.spawn(list(argv), stdin)
+            out.append(self.res[k])
+        return out
+
+    def __call__(self, argv, stdin):
+        return self.many([(argv, stdin)])[0]
+
+
+def bulk_judge(cases, jobs_of, judge, tag, part, rounds=5):
+    """Run every primary job of every case through the batch hook, judge each case; jobs a judge asks for that were
+    not primary (reload phases) are batched in further rounds. -> {case index: judge result}"""
+    memo = MemoRunner()
+    jobs = []; seen = set()
+    for c in cases:
+        for argv, stdin in jobs_of(c):
+            k = (tuple(argv), stdin)
+            if k not in seen:
+                seen.add(k); jobs.append((list(argv), stdin))
+    res = run1(jobs, tag)
+    memo.fill(jobs, res)
+    part.keep_jobs(jobs, res, 4)
+    njobs = len(jobs)
+    verdicts = {}
+    pending = list(range(len(cases)))
+    for rnd in range(rounds):
+        memo.missing = {}
+        nxt = []
+        for i in pending:
+            try:
+                verdicts[i] = judge(cases[i], memo)
+            except Need:
+                nxt.append(i)
+        if not nxt:
+            break
+        more = [(list(a), s) for (a, s) in memo.missing]
+        r2 = run1(more, tag + "r%d" % rnd)
+        memo.fill(more, r2)
+        part.keep_jobs(more, r2, 2)
+        njobs += len(more)
+        pending = nxt
+    else:
+        raise common.Machinery("bulk_judge: judges kept asking for new jobs")
+    return verdicts, njobs
+
+
+def confirm_and_report_sets(rep, fails, rejudge):
+    """rejudge(example, SpawnRunner()) -> set of signatures; see confirm_and_report."""
+    confirm_and_report(rep, fails, lambda ex, _r: rejudge(ex, SpawnRunner()))
+
+
+def replay_sets(rep, ctx, rejudge):
+    return replay(rep, ctx, lambda ex, _r: rejudge(ex, SpawnRunner()))
